@@ -1,16 +1,17 @@
 SPECIFICATION MCSpec
 CONSTANTS
-  N = 3
+  N = 2
   Floor = 100
   Sustain = 2
-  ProbInterval = 3
-  ProbWindow = 2
+  ProbInterval = 15
+  ProbWindow = 3
   Rates = {30, 600}
   Delays = {FALSE}
-  Conns = {TRUE, FALSE}
-  MaxTicks = 100000
-  Export = FALSE
+  Conns = {TRUE}
+  MaxTicks = 24
+  Export = TRUE
 VIEW View
+ACTION_CONSTRAINT Emit
 CONSTRAINT Bound
 INVARIANTS NotWeakWhenOff DelayNeedsTwoTicks RunBounded EnterLeave
 PROPERTY ProbationHonoured
